@@ -2,7 +2,7 @@
    cfg ranges over all configurations (any number of nodes, addresses shared or empty, any groups with
    shared nodes), h over all finite histories of events (including reloads, suppression scopes). *)
 From Coq Require Import List NArith ZArith Bool.
-From Dae Require Import C16_Spec C16_Model C16_Proofs C16_ProofsHealth C16_ProofsEdges C16_ProofsFloor C16_ProofsGroups C16_ProofsGroupsReload C16_ProofsGroupsFinal C16_ProofsNoRevive C16_ProofsInstances C16_ProofsHandover.
+From Dae Require Import C16_Spec C16_Model C16_Proofs C16_ProofsHealth C16_ProofsEdges C16_ProofsFloor C16_ProofsGroups C16_ProofsGroupsReload C16_ProofsGroupsFinal C16_ProofsNoRevive C16_ProofsInstances C16_ProofsHandover C16_ProofsProbe.
 From Dae.gen Require Import C16_Consts.
 Import ListNotations.
 Open Scope N_scope.
@@ -158,6 +158,34 @@ Theorem C16_data_udp_traffic_revives_early_return_refuted :
   /\ model_alive wit_cfg1 (h ++ [ETrafficOk 0 DataUdp4 []]) 0 DataUdp4 = true.
 Proof. exact C16_data_udp_traffic_revives_early_return_refuted_proof. Qed.
 Print Assumptions C16_data_udp_traffic_revives_early_return_refuted.
+
+(* ---- a probe = the two-attempt loop of Dialer.check (number of attempts and loop shape extracted from source) ---- *)
+(* for all attempt outcomes and every point at which teardown cancels the node's context, the verdict of the loop
+   is the property's: success if an attempt succeeded, a cancellation (never counted) whenever the context is
+   cancelled before a second attempt completed, a failure iff both attempts genuinely failed *)
+Theorem C16_probe_verdict :
+  (forall a1 a2 c, model_probe_verdict a1 a2 c = spec_probe_verdict a1 a2 c)
+  /\ (forall a1 a2 c, model_probe_verdict a1 a2 c = VFailure <-> (a1 = AErr /\ a2 = AErr /\ (c = CNone \/ c = CAfter))).
+Proof. exact (conj C16_probe_verdict_proof C16_probe_failure_iff_proof). Qed.
+Print Assumptions C16_probe_verdict.
+
+(* composition with C16_ignorable_never_counts: after any history such a probe changes no alive flag, count,
+   tracker, set or slot and fires no callback *)
+Theorem C16_probe_cancel_never_counts :
+  forall cfg h n d a1 a2 c l,
+    (c = CBefore1 \/ (a1 = AErr /\ (c = CBetween \/ c = CDuring2))) ->
+    same_health (m_run cfg h) (m_run cfg (h ++ [probe_event a1 a2 c n d l]))
+    /\ m_tlog (m_run cfg (h ++ [probe_event a1 a2 c n d l])) = [].
+Proof. exact C16_probe_cancel_never_counts_proof. Qed.
+Print Assumptions C16_probe_cancel_never_counts.
+
+(* false of the variant that skips the retry once the context is cancelled and judges the first attempt's error *)
+Theorem C16_probe_verdict_break_first_refuted :
+  probe_loop_break_first AErr AErr CBetween 0 2 RNothing = RError
+  /\ spec_probe_verdict AErr AErr CBetween = VIgnore
+  /\ model_probe_verdict AErr AErr CBetween = VIgnore.
+Proof. exact C16_probe_verdict_break_first_refuted_proof. Qed.
+Print Assumptions C16_probe_verdict_break_first_refuted.
 
 (* ---- callbacks fire exactly on flips, for every event of every history (reloads: relative to the fresh
    generation's all-alive dialers) ------------------------------------------------------------------- *)
